@@ -592,9 +592,58 @@ def sx_contains_str(container, item):
             return any(sg[0] == 'lit' and item in sg[1] for sg in container.segs)
         if container.segs is not None and any(sg[0] == 'lit' and item in sg[1] for sg in container.segs):
             return True
+        r = _contains_anchored(container.segs, item)
+        if r is not None:
+            return r
     if isinstance(container, str) and not isinstance(container, Sym):
         return mkbool(z3.Contains(z3.StringVal(container), lift(item)))
     return mkbool(z3.Contains(container.t, lift(item)))
+
+
+def _contains_anchored(segs, needle):
+    """Exact `needle in <structured string>` when the needle has a character c that no atom may contain: every
+    occurrence must then put c on a literal position; each such alignment is checked against the neighbouring literal
+    text.  Returns True / False, or None when an alignment would reach into an atom (left to the solver)."""
+    if segs is None:
+        return None
+    anchors = [j for j, ch in enumerate(needle) if all(sg[0] == 'lit' or sg[2].excludes_all(ch) for sg in segs)]
+    if not anchors:
+        return None
+    j = anchors[0]
+    c = needle[j]
+    # flatten: list of (kind, payload) per position for literals, one entry per atom
+    flat = []
+    for sg in segs:
+        if sg[0] == 'lit':
+            flat += [('c', ch) for ch in sg[1]]
+        else:
+            flat.append(('a', sg))
+    undecided = False
+    for p, (k, ch) in enumerate(flat):
+        if k != 'c' or ch != c:
+            continue
+        ok = True
+        # left part needle[:j] must sit on flat[p-j:p], right part needle[j+1:] on flat[p+1:...]
+        for off in range(-j, len(needle) - j):
+            q = p + off
+            if q < 0 or q >= len(flat):
+                ok = False
+                break
+            kk, cc = flat[q]
+            if kk == 'a':
+                if cc[2].excludes_all(needle[j + off]):
+                    ok = False
+                else:
+                    ok = None       # would need part of the needle inside an atom
+                break
+            if cc != needle[j + off]:
+                ok = False
+                break
+        if ok is True:
+            return True
+        if ok is None:
+            undecided = True
+    return None if undecided else False
 
 
 # ---- syntactic comparisons on aligned segment lists (saves solver calls, never changes the answer)
